@@ -35,6 +35,7 @@ def _d04a(case, observed, finding):
 
 
 MATCHERS = {'start_of_vital_thread_refused': _d04a, **exitfaults.MATCHERS}
+BATCH = 6000
 
 
 def gen_cases(ctx, scale=1.0):
@@ -324,14 +325,18 @@ def run(ctx, drv):
         'the out-of-memory handler\'s shrinking of the piece queue is not part of the transition system: a smaller '
         'capacity only removes behaviours, so every observed run is still replayed in the model (capacity = initial)',
     ]
-    evaluate(ctx, drv, gen_cases(ctx))
+    cases = gen_cases(ctx)
+    for i in range(0, len(cases), BATCH):        # (bounded memory in the thorough tier: traces are kept per batch only)
+        evaluate(ctx, drv, cases[i:i + BATCH])
     # faults in the reader's other OS calls (close in the finally block and on eviction, seek, open, stat) and failures
     # of the calling thread itself (arguments of the wrong type): harness/sched/exitfaults.py
     ctx.notes['assumptions'].append(
         'close()/seek()/open()/stat faults are injected through the same shadowed `open` (and a forwarding `os` in '
         'torf._stream); a file that cannot be opened is an error item exactly like a missing file; whether a failing '
         'close() was the finally block\'s or an eviction is read off the trace (did the reader queue anything afterwards)')
-    exitfaults.evaluate(ctx, drv, exitfaults.gen_cases(ctx), strict=True, matchers=MATCHERS)
+    cases = exitfaults.gen_cases(ctx)
+    for i in range(0, len(cases), BATCH):
+        exitfaults.evaluate(ctx, drv, cases[i:i + BATCH], strict=True, matchers=MATCHERS)
 
 
 def search(ctx, drv):
